@@ -119,7 +119,7 @@ class BranchingList:
                 path_old = self.cases[id_old].path
             if node.case_type==Keyword.CASE:
                 pass
-            elif node.case_type==Keyword.ELSE and self.cases:
+            elif node.case_type==Keyword.ELSE and any(self.cases[self.branches[b].cases[-1]].path==path_new for b in self.state):
                 pass
             elif node.case_type==Keyword.END and self.cases and path_old==path_new:
                 self._close_branch()
